@@ -63,6 +63,91 @@ fn main() {
 				emit(&json!({"obs": r.unwrap_or_else(|_| "PANIC".into())}));
 			}
 		}
+		"ignores" => rt.block_on(ignores(&args[2], &args[3])),
 		other => panic!("unknown subcommand {other}"),
+	}
+}
+
+// ---------------------------------------------------------------- C12
+
+async fn ignores(cases: &str, base: &str) {
+	use watchexec::filter::Filterer;
+	use watchexec_events::{filekind::*, Event, FileType, Priority, Tag};
+	std::fs::create_dir_all(base).unwrap();
+	let base = std::fs::canonicalize(base).unwrap();
+	let proj = base.join("proj");
+	let home = base.join("home");
+	let _ = std::fs::remove_dir_all(&proj);
+	let _ = std::fs::remove_dir_all(&home);
+	for d in ["proj/.git/info", "proj/sub", "home/.config/git", "home/.config/watchexec"] {
+		std::fs::create_dir_all(base.join(d)).unwrap();
+	}
+	let w = |rel: &str, txt: &str| std::fs::write(base.join(rel), txt).unwrap();
+	w("proj/.git/HEAD", "ref: refs/heads/main\n");
+	w("proj/.git/info/exclude", "from_git_exclude\n");
+	w("proj/.gitignore", "from_gitignore\n");
+	w("proj/.ignore", "from_dotignore\n");
+	w("proj/.hgignore", "from_hgignore\n");
+	w("proj/sub/.gitignore", "from_sub_gitignore\n");
+	w("home/.config/git/ignore", "from_global_git\n");
+	w("home/.config/watchexec/ignore", "from_global_app\n");
+	w("proj/extra.ign", "from_explicit_file\n");
+	w("proj/filters.txt", "*.keep\n");
+	std::env::set_var("HOME", &home);
+	std::env::set_var("XDG_CONFIG_HOME", home.join(".config"));
+	for v in ["APPDATA", "USERPROFILE", "GIT_CONFIG_GLOBAL", "GIT_CONFIG_SYSTEM", "WATCHEXEC_IGNORE_FILES"] {
+		std::env::remove_var(v);
+	}
+	std::env::set_var("GIT_CONFIG_NOSYSTEM", "1");
+	std::env::set_current_dir(&proj).unwrap();
+	let ids = [
+		(".gitignore", 1), (".ignore", 2), (".hgignore", 3), ("sub/.gitignore", 4), (".git/info/exclude", 5),
+		("git/ignore", 6), ("watchexec/ignore", 7), ("extra.ign", 9),
+	];
+	for case in read_cases(cases) {
+		let mut argv = vec!["watchexec".to_owned(), "--project-origin".into(), proj.to_string_lossy().into_owned()];
+		argv.extend(strs(&case["args"]));
+		argv.extend(["--".to_owned(), "true".to_owned()]);
+		let a = match watchexec_cli::verif::args_from(argv.clone()).await {
+			Ok(a) => a,
+			Err(e) => {
+				emit(&json!({"error": format!("{e}")}));
+				continue;
+			}
+		};
+		let vcs = watchexec_cli::verif::vcs_types(&proj).await;
+		let listed: Vec<String> = if a.filtering.no_discover_ignore {
+			vec!["<no-discover>".into()]
+		} else {
+			watchexec_cli::verif::ignores(&a, &vcs).await.unwrap().iter().map(|ig| {
+				let p = ig.path.to_string_lossy().into_owned();
+				let id = ids.iter().filter(|(n, _)| p.ends_with(n)).map(|(_, i)| *i).max().unwrap_or(0);
+				let ain = match &ig.applies_in { None => "g", Some(d) if d.starts_with(&proj) => "o", Some(_) => "e" };
+				format!("{id}{ain}{}", ig.applies_to.map_or("-".to_owned(), |t| format!("{t:?}")))
+			}).collect()
+		};
+		let filterer = match watchexec_cli::verif::WatchexecFilterer::new(&a).await {
+			Ok(f) => f,
+			Err(e) => {
+				emit(&json!({"error": format!("{e}")}));
+				continue;
+			}
+		};
+		let mut verdicts = serde_json::Map::new();
+		for probe in strs(&case["probes"]) {
+			let (name, kind) = probe.split_once('@').map_or((probe.as_str(), "modify"), |(a, b)| (a, b));
+			let fek = match kind {
+				"create" => FileEventKind::Create(CreateKind::File),
+				"access" => FileEventKind::Access(AccessKind::Read),
+				"meta" => FileEventKind::Modify(ModifyKind::Metadata(MetadataKind::Permissions)),
+				_ => FileEventKind::Modify(ModifyKind::Data(DataChange::Content)),
+			};
+			let ev = Event {
+				tags: vec![Tag::Path { path: proj.join(name), file_type: Some(FileType::File) }, Tag::FileEventKind(fek)],
+				metadata: Default::default(),
+			};
+			verdicts.insert(probe.clone(), json!(filterer.check_event(&ev, Priority::Normal).unwrap()));
+		}
+		emit(&json!({"vcs": vcs.iter().map(|t| format!("{t:?}")).collect::<Vec<_>>(), "listed": listed, "verdicts": verdicts}));
 	}
 }
